@@ -18,10 +18,10 @@ ID = "C16"
 LEVEL = "exploration"
 COUNTS = {"quick": 3000, "thorough": 200000}
 RULE = ("seeded histories of 1-8 attach / re-attach / follow-up-command events over 1-4 simulated devices (any of 32 device types x "
-        "8 qualifiers, SG_IO or iSCSI) with optional CHECK CONDITION on the attach INQUIRY and node replacement by another type; "
-        "enumerated: every (type, qualifier, transport) attached alone with its follow-up commands (512 programs, complete in both tiers). "
+        "8 qualifiers; SG_IO, iSCSI or an application-defined device object with plain attributes) with optional CHECK CONDITION on the attach INQUIRY and node replacement by another type; "
+        "enumerated: every (type, qualifier, transport) attached alone with its follow-up commands (768 programs, complete in both tiers). "
         "Non-trivial = at least two events or a re-attach to a device of a different family; distinct = event digest")
-ENUMERATED_NOTE = "32 peripheral device types x 8 qualifiers x 2 transports, single attach + follow-up commands: complete in both tiers"
+ENUMERATED_NOTE = "32 peripheral device types x 8 qualifiers x 3 transports (SG_IO, iSCSI, plain device object), single attach + follow-up commands: complete in both tiers"
 COMPONENTS = {"real": ["SCSI.__init__/__call__/type detection", "Inquiry", "SCSIDevice", "ISCSIDevice", "opcode tables (as selected)"],
               "stubs": ["sgio module", "iscsi module", "virtual /dev"],
               "simulated_peers": ["t10.targets Generic/Block/Changer/Mmc LUs dispatching by T10 opcode"]}
@@ -30,7 +30,7 @@ ASSUMPTIONS = [
     "for types other than 00h/04h/07h/01h/05h/08h only the primary commands (INQUIRY, TEST UNIT READY, REPORT LUNS) are demanded",
     "re-attaching the same device object after its node changed type is judged only on the recognised-family clauses",
 ]
-REQUIRED_PROBES = ["iscsi_nonzero_lun", "reattach_other_family", "attach_fault", "followup_ok", "unknown_type"]
+REQUIRED_PROBES = ["plain_device", "iscsi_nonzero_lun", "reattach_other_family", "attach_fault", "followup_ok", "unknown_type"]
 
 FAMILY = {0x00: "sbc", 0x04: "sbc", 0x07: "sbc", 0x01: "ssc", 0x05: "mmc", 0x08: "smc"}
 DISC = {
@@ -60,7 +60,7 @@ def gen_dev(rng):
         t = rng.choice([0, 0, 4, 7, 1, 5, 8, 8, 5])
     else:
         t = rng.randrange(32)
-    return {"type": t, "qual": rng.choice([0, 0, 0, 1, 3, rng.randrange(8)]), "transport": rng.choice(["sgio", "iscsi"]),
+    return {"type": t, "qual": rng.choice([0, 0, 0, 1, 3, rng.randrange(8)]), "transport": rng.choice(["sgio", "iscsi", "sgio", "iscsi", "plain"]),
             "inq_len": rng.choice([36, 96, 96, 96, 128, 164, 255]), "lun": rng.choice([0, 0, 1, 3]),
             "decoy_type": rng.choice([0, 1, 5, 8, 3])}
 
@@ -87,13 +87,13 @@ def generate(rng, idx, tier):
 
 
 def enumerated_count(tier):
-    return 32 * 8 * 2
+    return 32 * 8 * 3
 
 
 def enumerated(k, tier):
     t = k % 32
     q = (k // 32) % 8
-    tr = "iscsi" if k >= 256 else "sgio"
+    tr = ["sgio", "iscsi", "plain"][k // 256]
     return {"property": ID, "config": {"devs": [{"type": t, "qual": q, "transport": tr, "inq_len": [36, 96, 164, 255][(t + q) % 4], "lun": [0, 2][(t >> 1) & 1] if tr == "iscsi" else 0,
                                                  "decoy_type": [0, 8, 5, 1][t % 4]}]},
             "ops": [{"op": "attach", "dev": 0, "new_facade": True}, {"op": "followup", "seed": k}, {"op": "followup", "seed": k + 1}]}
@@ -114,6 +114,12 @@ def _open(spec, n):
         WORLD.plug(path, lu)
         SCSI, SCSIDevice, ISCSIDevice = worlds.lib()
         return SCSIDevice(path), lu
+    if spec["transport"] == "plain":
+        # an application's own device object (the shape of the test suite's MockDevice, with plain attributes)
+        from props.c13 import PlainDevice
+        import pyscsi.pyscsi.scsi_enum_command as E
+        WORLD.probe("plain_device")
+        return PlainDevice(E.spc, lu, None), lu
     SCSI, SCSIDevice, ISCSIDevice = worlds.lib()
     lun = spec.get("lun", 0)
     key = ("10.0.0.%d:3260" % (n + 1), "iqn.2026-10.verif:tgt%d" % n, lun)
@@ -204,6 +210,8 @@ def execute(prog):
                 for h in WORLD.handles:
                     if h.name == "/dev/sg%d" % n:
                         h.node.target = lu
+            elif specs[n]["transport"] == "plain":
+                devs[n].lu = lu
             else:
                 key = ("10.0.0.%d:3260" % (n + 1), "iqn.2026-10.verif:tgt%d" % n, specs[n].get("lun", 0))
                 WORLD.iscsi_targets[key] = lu
@@ -215,6 +223,9 @@ def execute(prog):
             n = op["dev"]
             dev, lu, spec = devs[n], lus[n], specs[n]
             where = "%s/%s" % (spec["transport"], "attach" if (scsi is None or op.get("new_facade")) else "reattach")
+            if op.get("fault") and spec["transport"] == "plain":
+                op = dict(op)
+                op.pop("fault")      # faults are injected at the two bindings; a plain device object has none
             if op.get("fault"):
                 WORLD.arm(op["fault"])
                 WORLD.probe("attach_fault")
